@@ -106,13 +106,30 @@ end
 
 /-! ### parser trees -/
 
-/-- what the model knows about one parser besides its subcommands -/
+/-- what the model knows about one parser besides its subcommands.  `dflt`/`envc` are the OPAQUE form (whatever
+    `get_defaults` / `_load_env_vars` return, used by `layFuel` and `baseOf`); the other fields are the CONCRETE form from
+    which `getDefaultsC` / `loadEnvC` / `layerC` below compute those namespaces -/
 structure Info where
   /-- `get_defaults(skip_validation=True)` of this parser: option defaults, default config files -/
   dflt : Cfg
   /-- `_load_env_vars(...)` of this parser: what the environment gives (empty unless `default_env`) -/
   envc : Cfg
+  /-- subcommand names from the root to this parser -/
+  path : List String := []
+  /-- the defaults of the actions (`action.default` of every action with a dest): options, the config argument
+      (`None`), the subcommand key (`None`) -/
+  opts : Cfg := []
+  /-- dests of the plain option actions (neither the config argument nor the subcommand key), in `_actions` order -/
+  options : List String := []
+  /-- dest of the `ActionConfigFile` argument, if there is one -/
+  cfgKey : Option String := .none
+  /-- contents of this parser's existing default config files, in the order `_get_default_config_files` lists them -/
+  dcfs : List Cfg := []
+  /-- the same for the PARENT parser (what `parent_parsers_context(key, parser)` makes visible to this parser) -/
+  pdcfs : List Cfg := []
 deriving Repr, Inhabited
+
+def Info.basic (d e : Cfg) : Info := { dflt := d, envc := e }
 
 /-- `add_subcommands(required, dest)` -/
 structure SubHdr where
@@ -215,6 +232,10 @@ def getSub (h : SubHdr) (ns : List String) (fl : Flags) (pre : List String) (cfg
     else if h.required && !validNameO ns r.sub then .error (.nosub (pre ++ [h.dest]))
     else .ok r
   else .ok r
+
+def findP (n : String) : List (String × P) → Option P
+  | [] => .none
+  | (m, q) :: r => if m = n then some q else findP n r
 
 def nameOf : Val → Option String
   | .str s => some s
@@ -441,6 +462,139 @@ def argvCall (lay : Mode → P → Cfg) (single : Bool) (mode : Mode) (h : SubHd
     else argvCall lay single mode h rest n av cfg
 end
 
+/-! ### environment variable names
+
+`get_env_var` (`_formatters.py`): `parser.env_prefix.replace("-", "_") + "_" + action.dest`, then `.replace(".", "__").upper()`.
+`add_subcommands`: `subcommands.env_prefix = get_env_var(self)`; `add_subcommand`: `parser.env_prefix = f"{self.env_prefix}{name}_"`.
+Strings are lists of code points here; `upN` is `str.upper` on ASCII (names outside ASCII are outside the model). -/
+
+def upN (n : Nat) : Nat := if 97 ≤ n ∧ n ≤ 122 then n - 32 else n
+def dashN (n : Nat) : Nat := if n = 45 then 95 else n
+def dotsN (n : Nat) : List Nat := if n = 46 then [95, 95] else [n]
+def up (s : List Nat) : List Nat := s.map upN
+def dash (s : List Nat) : List Nat := s.map dashN
+def dots (s : List Nat) : List Nat := s.flatMap dotsN
+
+def codes (s : String) : List Nat := s.toList.map Char.toNat
+
+/-- `get_env_var(parser, action)` for a parser whose `env_prefix` is `envPrefix` (`dest = []`: `get_env_var(parser)`) -/
+def getEnvVar (envPrefix dest : List Nat) : List Nat := up (dots (dash envPrefix ++ [95] ++ dest))
+
+/-- `env_prefix` of the sub-parser `name` of a parser whose `env_prefix` is `parentPrefix` -/
+def subPrefix (parentPrefix name : List Nat) : List Nat := getEnvVar parentPrefix [] ++ name ++ [95]
+
+/-- `env_prefix` of the parser reached from a parser with prefix `root` through the subcommands `path` -/
+def prefixAt (root : List Nat) : List (List Nat) → List Nat
+  | [] => root
+  | n :: rest => prefixAt (subPrefix root n) rest
+
+/-- the variable read for `dest` of the parser at `path` -/
+def envVarAt (root : List Nat) (path : List (List Nat)) (dest : List Nat) : List Nat :=
+  getEnvVar (prefixAt root path) dest
+
+/-- the process environment as far as the parsers read it: typed values of option / subcommand-key variables, loaded
+    trees of config variables; `root` is the root parser's `env_prefix` -/
+structure Env where
+  root : List Nat
+  vals : List (List Nat × Val)
+  cfgs : List (List Nat × Cfg)
+deriving Inhabited
+
+def lookupE {α : Type} (k : List Nat) : List (List Nat × α) → Option α
+  | [] => .none
+  | (k', v) :: r => if k' = k then some v else lookupE k r
+
+/-! ### `get_defaults`, `_load_env_vars`, `parse_env` concretely -/
+
+/-- the stack of `parent_parsers`: (key, default config files of that parser) -/
+abbrev Ctx := List (String × List Cfg)
+
+/-- `cfg_dict.get(key, {})` -/
+def narrow (key : String) (t : Cfg) : Cfg := secOf (lookup key t)
+
+/-- `_get_default_config_files`: the files of the parsers on the stack narrowed to their key, then the parser's own -/
+def filesOf (ctx : Ctx) (own : List Cfg) : List Cfg :=
+  ctx.flatMap (fun kf => kf.2.map (narrow kf.1)) ++ own
+
+/-- `__default_config__`: the path of the first file, a list from the second on (tokens of the wire format) -/
+def metaTok (c : Cfg) : Val :=
+  match lookup "__default_config__" c with
+  | .none => .str "§Path"
+  | some _ => .str "§list"
+
+/-- one round of the loop of `get_defaults` -/
+def defaultsStep (single : Bool) (p : P) (cfg tree : Cfg) : Cfg :=
+  match applyDefaultCfg single p tree cfg with
+  | .ok c => insert "__default_config__" (metaTok c) c
+  | .error _ => merge tree cfg     -- the code raises ("Problem in default config file"): outside the model
+
+/-- `get_defaults(skip_validation=True)` under the `parent_parsers` stack `ctx` -/
+def getDefaultsC (single : Bool) (ctx : Ctx) (p : P) : Cfg :=
+  (filesOf ctx p.info.dcfs).foldl (defaultsStep single p) p.info.opts
+
+/-- `for k, v in vars(pcfg).items(): cfg[subcommand + "." + k] = v` -/
+def copyUnder (sub : String) (pcfg cfg : Cfg) : Cfg :=
+  if pcfg.isEmpty then cfg
+  else insert sub (.sec (pcfg.foldl (fun s kv => insert kv.1 kv.2 s) (secOf (lookup sub cfg)))) cfg
+
+/-- `_load_env_vars`, first loop: the config variable through `apply_config` -/
+def envCfgPart (E : Env) (q : P) : Cfg :=
+  match q.info.cfgKey with
+  | some ck => match lookupE (getEnvVar (prefixAt E.root (q.info.path.map codes)) (codes ck)) E.cfgs with
+    | some tree => match loadCfgArg q tree with
+      | .ok t => insert ck (.str "§list") (merge t [])
+      | .error _ => []
+    | .none => []
+  | .none => []
+
+/-- second loop: the subcommand variable selects (if it names a choice) and the COMPLETE `parse_env` of the named
+    sub-parser (`penv`) is copied key by key -/
+def envSubPart (E : Env) (penv : P → Cfg) (q : P) (c0 : Cfg) : Cfg :=
+  match q.sub with
+  | some h => match lookupE (getEnvVar (prefixAt E.root (q.info.path.map codes)) (codes h.dest)) E.vals with
+    | some (.str v) =>
+      match findP v q.choices with
+      | some r => copyUnder v (penv r) (insert h.dest (.str v) c0)
+      | .none => c0
+    | _ => c0
+  | .none => c0
+
+/-- `cfg[action.dest] = <value of the variable>` if the variable of the option is set -/
+def envOptStep (E : Env) (pre : List Nat) (c : Cfg) (o : String) : Cfg :=
+  match lookupE (getEnvVar pre (codes o)) E.vals with
+  | some v => insert o v c
+  | .none => c
+
+/-- third loop: the option variables -/
+def envOptPart (E : Env) (q : P) (c1 : Cfg) : Cfg :=
+  q.info.options.foldl (envOptStep E (prefixAt E.root (q.info.path.map codes))) c1
+
+/-- `_load_env_vars` -/
+def loadEnvC (E : Env) (penv : P → Cfg) (q : P) : Cfg :=
+  envOptPart E q (envSubPart E penv q (envCfgPart E q))
+
+/-- the key under which `handle_subcommands` (started on `base` with an empty prefix) pushes the parser `r`: `prefix + name` -/
+def relKey (base r : P) : String := ".".intercalate (r.info.path.drop base.info.path.length)
+
+/-- `subparser.get_defaults(skip_validation=True)` resp. `subparser.parse_env(defaults=True, _skip_validation=True)` of
+    the parser `q` under the stack `ctx`.  Inside `parse_env` the sub-parsers named by the environment are parsed under
+    the SAME stack, the sub-parsers handled by `handle_subcommands` under the stack extended by `(key, q's files)`. -/
+def layerC (E : Env) : Nat → Bool → Ctx → Mode → P → Cfg
+  | _, _, _, .none, _ => []
+  | _, single, ctx, .dflt, q => getDefaultsC single ctx q
+  | 0, single, ctx, .env, q => getDefaultsC single ctx q
+  | fuel + 1, single, ctx, .env, q =>
+    let d := getDefaultsC single ctx q
+    let e := loadEnvC E (layerC E fuel single ctx .env) q
+    match parseCommon (fun m r => layerC E fuel single (ctx ++ [(relKey q r, r.info.pdcfs)]) m r)
+        ⟨false, single, .env⟩ true false q (merge e d) with
+    | .ok c => c
+    | .error _ => merge e d
+
+/-- the layer function of the final stage of a parse started on `base` (no ambient stack) -/
+def layC (E : Env) (fuel : Nat) (single : Bool) (base : P) : Mode → P → Cfg :=
+  fun m r => layerC E fuel single [(relKey base r, r.info.pdcfs)] m r
+
 /-! ### the statements of the code that the definitions above transcribe
 
 Text of the anchored statements as `ast.unparse` prints them.  `harness/extractors/subcmd_shape.py` regenerates the same
@@ -474,6 +628,15 @@ def addSubcommand : List String := ["if parser._subparsers is not None:\n    rai
 /-- the `default_env` setter assigns THROUGH THE PROPERTY on every sub-parser, i.e. recursively: environment parsing is
     on or off for the whole tree, which is why `handle`, `argvCall`, `parseArgs` and `layFuel` carry ONE `mode` -/
 def defaultEnvPropagation : List String := ["self._subcommands_action", "for subparser in self._subcommands_action._name_parser_map.values():\n    subparser.default_env = self._default_env"]
+/-- the statements behind `getEnvVar`/`subPrefix`, `filesOf`/`narrow`, the stack extension in `layerC`, `defaultsStep`,
+    `merge e d` in `layerC` and the three loops of `loadEnvC` -/
+def getEnvVarBody : List String := ["if isinstance(parser_or_formatter, DefaultHelpFormatter):\n    parser = parent_parser.get()\nelse:\n    parser = parser_or_formatter", "assert parser is not None", "env_var = ''", "if isinstance(parser.env_prefix, str):\n    env_var = parser.env_prefix.replace('-', '_') + '_'", "if action:\n    env_var += action.dest", "env_var = env_var.replace('.', '__').upper()", "return env_var"]
+def envPrefixOfSubcommands : List String := ["subcommands.env_prefix = get_env_var(self)", "env_prefix = os.path.splitext(self.prog)[0]"]
+def defaultConfigFilesLoops : List String := ["for key, parser in parent_parsers.get():\n    for pattern in parser.default_config_files:\n        files = sorted(glob.glob(os.path.expanduser(pattern)))\n        default_config_files += [(key, v) for v in files]", "for pattern in self.default_config_files:\n    files = sorted(glob.glob(os.path.expanduser(pattern)))\n    default_config_files += [(None, x) for x in files]"]
+def parentParsersContext : List String := ["prev = parent_parsers.get()", "curr = [] if parser is None else prev + [(key, parser)]", "token = parent_parsers.set(curr)", "parent_parsers_context(key, parser)", "key = prefix + subcommand"]
+def defaultConfigLoad : List String := ["if key and isinstance(cfg_dict, dict):\n    cfg_dict = cfg_dict.get(key, {})", "cfg_file = self._load_config_parser_mode(default_config_file.get_content(), key=key)", "cfg = self.merge_config(cfg_file, cfg)"]
+def envOverDefaults : List String := ["cfg = self.merge_config(cfg_env, cfg)"]
+def loadEnvVarsLoops : List String := ["env_var in env and isinstance(action, ActionConfigFile)", "env_var in env and isinstance(action, _ActionSubCommands)", "env_var in env and (not isinstance(action, (ActionConfigFile, _ActionSubCommands)))"]
 end Shape
 
 end Jap.Subcmd
